@@ -16,6 +16,15 @@ x case kinds
     solo  one interface of {default m.solve(), ort_solver, eco_solver, grb_solver} that supports the cone types,
           display=False, log in {False, True}
     pair  the *same model object* solved by interface I1 and then I2 (all ordered pairs; (I,I) when only one exists)
+    hist  solve HISTORIES across interfaces inside one (long-lived) process, two DIFFERENT models P and Q:
+              s0 P.solve(I2) ; s1 Q.solve(I1, params=p) ; s2 new-P.solve(I2) ; s3 Q.solve(I1) ; s4 P.solve(I2)
+          for every ordered pair (I1, I2) of the four interfaces (ECOS only with <= 3 integer variables),
+          P in {K12: 12-binary two-row knapsack, I5: five integers in {0..3}, K3, LP4: box-bounded LP},
+          Q in {K10, K3, LP4} (other palette than P), p in a table of termination / tolerance parameter sets
+          (MIPGap, SolutionLimit, Cutoff, MIPGapAbs, BestObjStop, TimeLimit, NodeLimit+Heuristics,
+          MIPGap+SolutionLimit; thorough adds IterationLimit, WorkLimit, BestBdStop, IntFeasTol+FeasibilityTol,
+          Presolve+Method and the front-end pairs lp/ro, ro/lp); interfaces that ignore params get three of them
+          (all of them in the thorough tier).  Only the call s1 passes parameters.
 
 Oracle.
     reference for LP/MILP: SciPy-HiGHS called directly on a snapshot of the compiled program, binaries read as
@@ -28,6 +37,16 @@ Oracle.
           SOC and exponential cones) by the residual checker; (5) model.get() = sign*objval, x.get() = slice of x.
     pair: deep snapshot of every field of m.do_math() equal before/after each solve (signed zeros identified);
           I2's answer on the shared object equals I2's answer on a fresh object.
+    hist: every parameter-free call (s0, s2, s3, s4) must be the exact answer - status optimal, value equal to
+          the optimum by COMPLETE ENUMERATION of the integer box (cross-checked with HiGHS on the snapshot; HiGHS alone
+          for the LP), vector feasible for the compiled program; an exception in s2/s4 that s0 does not raise is a
+          disagreement; both compiled programs unchanged.  The call with parameters (s1) must be admissible (vector
+          feasible, not better than the optimum, status optimal only inside the MIPGap/MIPGapAbs it was given) and,
+          for Gurobi, must report the status that Gurobi itself reports for the same program with these parameters
+          set on the model in a fresh gurobipy environment (= the parameters are in force for the call they were
+          given to).  Measured per case: whether the parameters change Gurobi's answer on Q and whether they would
+          change it on P (i.e. a leak would be visible): a case is non-trivial only if one of the two holds.  The
+          harness itself sets parameters only on its own gurobipy models in its own environment, never globally.
 Exceptions raised by solve(), limits and 'inaccurate' statuses make a case vacuous (C11 is conditional).
 
 Interface support table used by the generator (everything else is enumerated for all four interfaces):
@@ -40,6 +59,7 @@ Interface support table used by the generator (everything else is enumerated for
 Signatures:  <family>|<front end>|<input class>|<interface>|<failed check>   e.g.
     MILP|ro|vt=CB|B:half-dn|I:-|bounds-as:B|def|objval        LP|ro|empty-neg-sum|bounds-as:R|ort|residual:lerow
     MILP|ro|vt=B|B:none|I:-|bounds-as:B|pair|mutates:def:ub+lb    SOCP|ro|norm|feas-row|vt=C|eco>grb|order-dependent
+    HIST|P=K12/ro|Q=K10/ro|grb:MIPGap=0.5>grb|parameter-free-solve-wrong    HIST|..|grb:SolutionLimit=1>def|params-call:status-differs-from-engine
 """
 import itertools
 import zlib
@@ -50,7 +70,11 @@ TIMEOUT = 10.0
 CHUNK = 8
 FLOOR = 0.5
 RULE = ('every spec of the LP / MILP / SOCP / EXP grammars (module docstring) x every supporting interface x '
-        'log flag (solo) and x every ordered interface pair on one model object (pair); a case is non-trivial when '
+        'log flag (solo) and x every ordered interface pair on one model object (pair); plus call histories (hist): '
+        'second model P x first model Q x (first interface, parameter set) x second interface, five solves per case of '
+        'which only the second passes params, every parameter-free solve compared with complete enumeration / HiGHS and '
+        'the call with parameters compared with Gurobi itself under these parameters (non-trivial when the parameters '
+        'measurably change the answer on Q or would change it on P); a solo/pair case is non-trivial when '
         'the reference (or peer interface) and the interface under test both reached a definite verdict and either '
         'both are optimal with the returned vector checked against all rows, bounds, integrality and cones, or both '
         'report no optimum and the no-solution protocol was exercised; distinct = distinct spec x kind x interface')
@@ -61,9 +85,12 @@ ASSUMPTIONS = [
     'rows with infinite right-hand side are outside the grammar (SciPy rejects them loudly, ECOS needs finite h)',
     'an exception raised by solve() is loud, hence vacuous, never a violation',
     'ECOS_BB only with <= 3 integer variables',
+    'hist: solver parameters are per call; the interfaces other than Gurobi accept a params dict and ignore it',
+    'hist: Gurobi is deterministic: same program + same parameters on the model => same termination status',
 ]
 TRUSTED = ['CPython', 'NumPy', 'SciPy-HiGHS linprog/milp as reference LP/MILP solver', 'closed forms of exp/log/entropy/KL',
-           'ECOS, Gurobi, OR-tools (GLOP/SCIP) as the engines behind the interfaces', 'residual checker (70 lines)']
+           'ECOS, Gurobi, OR-tools (GLOP/SCIP) as the engines behind the interfaces', 'residual checker (70 lines)',
+           'complete enumeration of <= 4096 integer points (hist)', 'gurobipy called directly in a fresh Env (hist, status of the call with parameters)']
 
 IFACES = ['def', 'ort', 'eco', 'grb']
 
@@ -426,6 +453,82 @@ def _exp_specs(thorough, pal):
 
 
 # ------------------------------------------------------------------------------------------------
+# HIST family: solve histories across interfaces inside one process.  A call that passes solver parameters
+# (termination / tolerance settings) on one model is followed by parameter-free calls on ANOTHER model.
+HPARAMS = {     # name -> params dict handed to solve(..., params=...); Gurobi names (the only interface that reads them)
+    'MIPGap=0.5': {'MIPGap': 0.5},
+    'SolutionLimit=1': {'SolutionLimit': 1},
+    'Cutoff=-1e6': {'Cutoff': -1e6},
+    'MIPGapAbs=1e3': {'MIPGapAbs': 1e3},
+    'BestObjStop=1e6': {'BestObjStop': 1e6},
+    'TimeLimit=0': {'TimeLimit': 0},
+    'NodeLimit=0+Heuristics=0': {'NodeLimit': 0, 'Heuristics': 0},
+    'MIPGap=1e-4+SolutionLimit=1': {'MIPGap': 1e-4, 'SolutionLimit': 1},
+    # thorough only
+    'IterationLimit=0': {'IterationLimit': 0},
+    'WorkLimit=0': {'WorkLimit': 0},
+    'BestBdStop=-1e6': {'BestBdStop': -1e6},
+    'IntFeasTol=0.1+FeasibilityTol=1e-2': {'IntFeasTol': 0.1, 'FeasibilityTol': 1e-2},
+    'Presolve=0+Method=0': {'Presolve': 0, 'Method': 0},
+}
+HP_QUICK = list(HPARAMS)[:8]
+HP_OTHER_QUICK = ['MIPGap=0.5', 'SolutionLimit=1', 'Cutoff=-1e6']     # handed to the interfaces that ignore params
+HP_MODELS_P = ['K12', 'I5', 'K3', 'LP4']       # second model (solved without parameters)
+HP_MODELS_Q = ['K10', 'K3', 'LP4']             # first model (solved with parameters)
+
+
+def _hist_model(name, pal, fe='ro'):
+    """Deterministic small MILP / LP of the HIST family -> spec (JSON).  Integer data, optimum by enumeration."""
+    if name[0] == 'K':          # two-row 0/1 knapsack, maximisation
+        n = int(name[1:])
+        w = [10 + (17 * j + 7 * pal) % 50 for j in range(n)]
+        v = [w[j] + (7 * j + 3 * pal) % 20 - 5 for j in range(n)]
+        w2 = [5 + (13 * j + 5 * pal) % 35 for j in range(n)]
+        cap, cap2 = float(int(sum(w) * 0.45)), float(int(sum(w2) * 0.5))
+        items = [['row', [[float(t) for t in w], [float(t) for t in w2]], '<=', [cap, cap2], 'mat']]
+        spec = {'n': n, 'vt': 'B', 'items': items, 'obj': ['max', [float(t) for t in v]], 'dom': [0, 1]}
+    elif name == 'I5':          # bounded general-integer two-row knapsack, x in {0..3}^5
+        n = 5
+        w = [3 + (5 * j + 2 * pal) % 7 for j in range(n)]
+        v = [w[j] + (3 * j + pal) % 5 - 1 for j in range(n)]
+        w2 = [2 + (4 * j + 3 * pal) % 6 for j in range(n)]
+        cap, cap2 = float(int(3 * sum(w) * 0.45)) + 0.5, float(int(3 * sum(w2) * 0.5)) + 0.5
+        items = [['bnd', 'L', None, 0.0, 'B'], ['bnd', 'U', None, 3.0, 'B'],
+                 ['row', [[float(t) for t in w], [float(t) for t in w2]], '<=', [cap, cap2], 'mat']]
+        spec = {'n': n, 'vt': 'I', 'items': items, 'obj': ['max', [float(t) for t in v]], 'dom': [0, 3]}
+    elif name == 'LP4':         # box-bounded LP, maximisation, two rows
+        n = 4
+        a1 = [1.0 + ((3 * j + pal) % 4) * 0.5 for j in range(n)]
+        a2 = [0.5 + ((5 * j + 2 * pal) % 3) * 0.75 for j in range(n)]
+        c = [1.0 + ((2 * j + 3 * pal) % 5) * 0.25 for j in range(n)]
+        items = [['bnd', 'L', None, 0.0, 'B'], ['bnd', 'U', None, 2.0, 'B'],
+                 ['row', [a1, a2], '<=', [1.0 * sum(a1), 1.25 * sum(a2)], 'mat']]
+        spec = {'n': n, 'vt': 'C', 'items': items, 'obj': ['max', c], 'dom': None}
+    else:
+        raise ValueError(name)
+    spec.update(fe=fe, name=name, cls='HIST|%s|%s' % (fe, name), sig='HIST|%s|%s' % (fe, name))
+    return spec
+
+
+def _hist_cases(thorough, pal):
+    pnames = list(HPARAMS) if thorough else HP_QUICK
+    fes = [('ro', 'ro'), ('lp', 'ro'), ('ro', 'lp')] if thorough else [('ro', 'ro')]
+    for fp, fq in fes:
+        for pn in HP_MODELS_P:
+            P = _hist_model(pn, pal, fp)
+            for qn in HP_MODELS_Q:
+                Q = _hist_model(qn, (pal + 1) % 4, fq)
+                for i1 in ['grb', 'def', 'ort', 'eco']:
+                    if i1 == 'eco' and _nint(Q) > 3:
+                        continue
+                    for i2 in ['grb', 'def', 'ort', 'eco']:
+                        if i2 == 'eco' and _nint(P) > 3:
+                            continue
+                        for pname in (pnames if (i1 == 'grb' or thorough) else HP_OTHER_QUICK):
+                            yield {'kind': 'hist', 'P': P, 'Q': Q, 'first': [i1, pname], 'second': i2}
+
+
+# ------------------------------------------------------------------------------------------------
 def _family(spec):
     return spec['cls'].split('|')[0]
 
@@ -470,6 +573,8 @@ def gen_cases(tier, seed):
                             if spec.get('eco') == 'limited' and 'eco' in (i1, i2) and 'grb' not in (i1, i2):
                                 continue
                             yield {'kind': 'pair', 'spec': spec, 'order': [i1, i2]}
+        for case in _hist_cases(thorough, pal):
+            yield case
 
 
 def bounds(tier):
@@ -478,7 +583,11 @@ def bounds(tier):
             'milp_vtype_strings': VTS_T if th else VTS_Q, 'milp_binary_bound_kinds': list(BKIND),
             'milp_integer_bound_kinds': list(IKIND), 'milp_continuous_bound_kinds': ['box'] + list(CKIND), 'palettes': 4 if th else 1,
             'interfaces': IFACES, 'front_ends': ['ro', 'lp', 'dro'] if th else ['ro', 'lp'],
-            'ecos_bb_max_integer_vars': 3}
+            'ecos_bb_max_integer_vars': 3,
+            'hist_params': list(HPARAMS) if th else HP_QUICK, 'hist_params_for_ignoring_interfaces': list(HPARAMS) if th else HP_OTHER_QUICK,
+            'hist_second_models': HP_MODELS_P, 'hist_first_models': HP_MODELS_Q,
+            'hist_front_end_pairs': ['ro/ro', 'lp/ro', 'ro/lp'] if th else ['ro/ro'],
+            'hist_calls_per_case': 5, 'hist_interface_pairs': 'all 16 ordered (first, second), ECOS only with <= 3 integer variables'}
 
 
 def exhaustive(tier):
@@ -512,12 +621,15 @@ def _res_tol(iface, kind):
     return 1e-6
 
 
-def _solve(m, x, iface, log):
+def _solve(m, x, iface, log, params=None):
     """Solve and read everything the property observes.  -> dict (never raises for rsome-side failures)."""
     prog = _rs['prog']
     out = {'iface': iface}
     try:
-        m.solve(_rs['solvers'][iface], display=False, log=log)
+        if params is None:
+            m.solve(_rs['solvers'][iface], display=False, log=log)
+        else:
+            m.solve(_rs['solvers'][iface], display=False, log=log, params=dict(params))
     except Exception as ex:  # noqa
         out['raised'] = '%s: %s' % (type(ex).__name__, str(ex)[:120])
         return out
@@ -593,6 +705,8 @@ def _reference(spec, S0, kind, iface):
 def run_case(case):
     if case['kind'] == 'solo':
         return _run_solo(case)
+    if case['kind'] == 'hist':
+        return _run_hist(case)
     return _run_pair(case)
 
 
@@ -735,3 +849,171 @@ def _diff_detail(a, b, fields):
         out.append('%s: %s -> %s' % (k, np.asarray(a[k]).tolist() if not isinstance(a[k], (list, str, int)) else a[k],
                                     np.asarray(b[k]).tolist() if not isinstance(b[k], (list, str, int)) else b[k]))
     return '; '.join(out)[:800]
+
+
+# ------------------------------------------------------------------------------------------------
+# HIST family: call histories with solver parameters
+_enum_cache = {}
+
+
+def _enum_opt(spec):
+    """Optimum (user sense) of a pure-integer HIST model by complete enumeration of its box; None for LPs."""
+    if spec['dom'] is None:
+        return None
+    key = (spec['name'], tuple(spec['obj'][1]), str(spec['items']))
+    if key not in _enum_cache:
+        lo, hi = spec['dom']
+        X = np.array(list(itertools.product(range(lo, hi + 1), repeat=spec['n'])), dtype=float)
+        ok = np.ones(len(X), dtype=bool)
+        for it in spec['items']:
+            if it[0] != 'row':
+                continue
+            V = X @ np.array(it[1], dtype=float).T
+            b = np.array(it[3], dtype=float)
+            ok &= (V <= b + 1e-9).all(axis=1) if it[2] == '<=' else (V >= b - 1e-9).all(axis=1) if it[2] == '>=' \
+                else (np.abs(V - b) <= 1e-9).all(axis=1)
+        vals = X[ok] @ np.array(spec['obj'][1], dtype=float)
+        _enum_cache[key] = float(vals.max() if spec['obj'][0] == 'max' else vals.min())
+    return _enum_cache[key]
+
+
+def _engine_grb(S, params):
+    """Gurobi called directly (own fresh environment, parameters on the model) on a snapshot -> (Status, ObjVal | None).
+    Independent of rsome.grb_solver and of the process-wide default environment."""
+    gp = _rs.get('gp')
+    if gp is None:
+        return None
+    if 'grb_env' not in _rs:
+        _rs['grb_env'] = gp.Env(params={'OutputFlag': 0})
+    g = gp.Model(env=_rs['grb_env'])
+    n = S['A'].shape[1]
+    x = g.addMVar(n, lb=S['lb'], ub=S['ub'], vtype=list(S['vtype']))
+    eq = S['sense'] == 1
+    if eq.any():
+        g.addMConstr(S['A'][eq], x, '=', S['b'][eq])
+    if (~eq).any():
+        g.addMConstr(S['A'][~eq], x, '<', S['b'][~eq])
+    g.setObjective(S['obj'] @ x)
+    for k, v in params.items():
+        g.setParam(k, v)
+    g.optimize()
+    try:
+        val = float(g.ObjVal) if g.SolCount > 0 else None
+    except Exception:  # noqa
+        val = None
+    st = int(g.Status)
+    g.dispose()
+    return st, val
+
+
+def _plain_ok(r, S, kind, iface, vref):
+    """A parameter-free solve must be the exact answer: optimal, value = reference, vector feasible.  -> None | text"""
+    prog = _rs['prog']
+    if 'raised' in r:
+        return 'raised ' + r['raised']
+    bad = _protocol(r)
+    if bad:
+        return '%s: %s' % bad
+    if r['cls'] != 'opt':
+        return 'status %r (%s) where the optimum %r exists' % (r['status'], r['cls'], vref)
+    if abs(r['objval'] - vref) > _obj_tol(iface, kind) * (1 + abs(vref)):
+        return 'status %r objval %r, true optimum %r' % (r['status'], r['objval'], vref)
+    res = prog.residuals(S, r['x'], tol=_res_tol(iface, kind))
+    if res:
+        return 'vector violates %s' % (res[:2],)
+    return None
+
+
+def _run_hist(case):
+    prog, bld = _rs['prog'], _rs['bld']
+    P, Q = case['P'], case['Q']
+    i1, pname = case['first']
+    i2 = case['second']
+    params = HPARAMS[pname]
+    base = 'HIST|P=%s/%s|Q=%s/%s|%s:%s>%s' % (P['name'], P['fe'], Q['name'], Q['fe'], i1, pname, i2)
+    try:
+        mP, xP, _, nP = bld.build(P)
+        mQ, xQ, _, nQ = bld.build(Q)
+        SP, SQ = prog.snapshot(mP.do_math()), prog.snapshot(mQ.do_math())
+    except Exception as ex:  # noqa
+        return {'status': 'unsupported', 'outcome': 'HIST build raised %s' % type(ex).__name__, 'ops': 1, 'detail': str(ex)[:200]}
+    kP, kQ = prog.kind_of(SP), prog.kind_of(SQ)
+    nops = 2 * nP + nQ + 20
+    if not (bld.supports(kP, i2, sum(v != 'C' for v in SP['vtype'])) and bld.supports(kQ, i1, sum(v != 'C' for v in SQ['vtype']))):
+        return {'status': 'vacuous', 'outcome': 'HIST: interface does not support the model', 'ops': nops}
+    # references (formula sense = minimisation): complete enumeration and HiGHS on the snapshot must agree
+    ref = {}
+    for tag, spec, S in (('P', P, SP), ('Q', Q, SQ)):
+        cls, val, _ = prog.ref_solve(S)
+        if cls != 'opt':
+            raise RuntimeError('HIST reference: HiGHS says %s for model %s' % (cls, spec['name']))
+        e = _enum_opt(spec)
+        if e is not None:
+            e = e if spec['obj'][0] == 'min' else -e
+            if abs(e - val) > 1e-6 * (1 + abs(e)):
+                raise RuntimeError('HIST references disagree on %s: enumeration %r, HiGHS %r' % (spec['name'], e, val))
+            val = e
+        ref[tag] = val
+    # the history
+    s0 = _solve(mP, xP, i2, False)                       # P before anything else: "the same call without the first one"
+    s1 = _solve(mQ, xQ, i1, False, params=params)        # Q with parameters
+    mP2, xP2, _, _ = bld.build(P)
+    s2 = _solve(mP2, xP2, i2, False)                     # a NEW object of P, no parameters
+    s3 = _solve(mQ, xQ, i1, False)                       # Q itself again, no parameters
+    s4 = _solve(mP, xP, i2, False)                       # the first object of P again
+    steps = (('P before', s0, SP, kP, i2, ref['P']), ('new P after', s2, SP, kP, i2, ref['P']),
+             ('Q again without params', s3, SQ, kQ, i1, ref['Q']), ('P again', s4, SP, kP, i2, ref['P']))
+    if 'raised' in s0 and all('raised' in s for s in (s2, s4)):
+        return {'status': 'vacuous', 'outcome': 'HIST %s>%s: parameter-free solve raises with and without history' % (i1, i2),
+                'ops': nops, 'detail': s0['raised']}
+    wrong = [(what, _plain_ok(r, S, k, i, v)) for what, r, S, k, i, v in steps]
+    wrong = [(w, t) for w, t in wrong if t]
+    if wrong:
+        return {'status': 'violation', 'sig': base + '|parameter-free-solve-wrong', 'ops': nops,
+                'detail': 'optimum P %r, Q %r (enumeration/HiGHS, minimisation form); %s; call with params: %s' % (
+                    ref['P'], ref['Q'], '; '.join('%s: %s' % wt for wt in wrong), _brief(s1))}
+    d = prog.snap_diff(SP, prog.snapshot(mP.do_math())) + prog.snap_diff(SQ, prog.snapshot(mQ.do_math()))
+    if d:
+        return {'status': 'violation', 'sig': base + '|mutates:' + '+'.join(d), 'ops': nops, 'detail': 'compiled program changed'}
+    # the call that passed parameters
+    effect = 'n.a.'
+    visible = 'n.a.'
+    if 'raised' in s1:
+        effect = 'raised'
+    else:
+        bad = _protocol(s1)
+        if bad:
+            return {'status': 'violation', 'sig': base + '|params-call:' + bad[0], 'ops': nops, 'detail': bad[1]}
+        loose = any(k in params for k in ('IntFeasTol', 'FeasibilityTol'))
+        if s1['x'] is not None and not loose:
+            res = prog.residuals(SQ, s1['x'], tol=_res_tol(i1, kQ))
+            if res:
+                return {'status': 'violation', 'sig': base + '|params-call:residual', 'ops': nops,
+                        'detail': 'x=%s violates %s' % (np.round(s1['x'], 5).tolist(), res[:3])}
+            tol = _obj_tol(i1, kQ) * (1 + abs(ref['Q']))
+            if s1['objval'] < ref['Q'] - tol:
+                return {'status': 'violation', 'sig': base + '|params-call:better-than-optimum', 'ops': nops,
+                        'detail': 'objval %r, optimum %r' % (s1['objval'], ref['Q'])}
+            allow = max(params.get('MIPGap', 1e-4) * abs(s1['objval']), params.get('MIPGapAbs', 1e-10))
+            if s1['cls'] == 'opt' and s1['objval'] > ref['Q'] + allow + tol:
+                return {'status': 'violation', 'sig': base + '|params-call:optimal-status-outside-gap', 'ops': nops,
+                        'detail': 'status %r objval %r, optimum %r, gap allowance %r' % (s1['status'], s1['objval'], ref['Q'], allow)}
+        if i1 == 'grb':
+            eng = _engine_grb(SQ, params)
+            if eng is not None:
+                if prog._int(s1['status']) != eng[0]:
+                    return {'status': 'violation', 'sig': base + '|params-call:status-differs-from-engine', 'ops': nops,
+                            'detail': 'solve(grb_solver, params=%r) reports status %r objval %r; Gurobi itself with these parameters '
+                                      'on the same program: status %r objval %r (parameters not in force for this call?)'
+                                      % (params, s1['status'], s1['objval'], eng[0], eng[1])}
+                plain = eng[0] == 2 and eng[1] is not None and abs(eng[1] - ref['Q']) <= 1e-6 * (1 + abs(ref['Q']))
+                effect = 'none' if plain else 'changes the answer'
+    if i2 == 'grb':
+        eng = _engine_grb(SP, params)
+        if eng is not None:
+            plain = eng[0] == 2 and eng[1] is not None and abs(eng[1] - ref['P']) <= 1e-6 * (1 + abs(ref['P']))
+            visible = 'no' if plain else 'yes'
+    return {'status': 'pass', 'ops': nops, 'validated': 4, 'states': 6, 'transitions': 5,
+            'nontrivial': effect != 'none' or visible == 'yes',
+            'outcome': 'HIST %s(params)>%s: 4 parameter-free solves exact; params on call 1: %s; a leak would show on P: %s'
+                       % (i1, i2, effect, visible)}
